@@ -60,7 +60,11 @@ def load_templates():
     """-> list of (template_path, [unit dicts])"""
     res = []
     for p in sorted(glob.glob(os.path.join(SPEC, '*.c'))):
-        units = xtract.scan_units(open(p).read())
+        try:
+            units = xtract.scan_units(open(p).read())
+        except Exception as e:       # a template under construction must not break the checks of other properties
+            sys.stderr.write('warning: cannot parse unit directives of %s: %s\n' % (p, e))
+            continue
         for u in units:
             u['_template'] = p
         res.append((p, units))
@@ -285,7 +289,8 @@ def build_unit(u, tier, extra_defs=(), tag='', trace=False):
     for r in results:
         desc = r.get('description', '')
         if desc.startswith('CANARY'):
-            canary = r['status']
+            if r['property'].startswith(u['entry'] + '.'):       # only the canary of this unit's harness counts
+                canary = r['status']
             continue
         n += 1
         cls = re.sub(r'\.\d+$', '', r['property'])
